@@ -558,9 +558,9 @@ func init() {
 		Streams: []fw.Stream{
 			{Name: "probes", Quick: len(c06Probes) + len(c06ErrorProbes), Thorough: len(c06Probes) + len(c06ErrorProbes), Run: c06Probe},
 			{Name: "vocabulary", Quick: nvocab, Thorough: nvocab, Run: c06Vocabulary},
-			{Name: "sequence", Quick: 600000, Thorough: 20000000, Run: c06Sequence},
-			{Name: "pair", Quick: 900000, Thorough: 30000000, Run: c06Pair},
-			{Name: "hostile", Quick: 400000, Thorough: 12000000, Run: c06Hostile},
+			{Name: "sequence", Quick: 600000, Thorough: 40000000, Run: c06Sequence},
+			{Name: "pair", Quick: 900000, Thorough: 60000000, Run: c06Pair},
+			{Name: "hostile", Quick: 400000, Thorough: 24000000, Run: c06Hostile},
 		},
 	})
 }
